@@ -148,6 +148,46 @@ Example C02_jump_example :
   is_stuck (wjboot fixes_none (wjafter 0)) = true.
 Proof. split; [exact jump_window_all|exact (proj1 jump_window_none)]. Qed.
 
+(* ---- the ORDER of Reset's two writers (Node/Stages.v reset_order) ----
+   Reset hands its stage batches to a helper goroutine and collects the old contract storage by a SeekGC that
+   goes to the database directly.  With the hand-over the code uses (an unbuffered channel: capacity 0) the direct
+   operation can reach the store only after the first four batches - in particular after the one that carries the
+   reset marker.  For every admissible order and every number k of writes on disk: the marker is on disk, or the
+   database is still the pre-reset one, or the reset is complete; and start-up resumes the reset to height h
+   and the database of the uninterrupted reset. *)
+Definition C02_reset_direct_ops_after_marker_statement : Prop := reset_order_statement 0.
+Theorem C02_reset_direct_ops_after_marker : reset_order_statement 0.
+Proof. exact reset_order_code. Qed.
+Print Assumptions C02_reset_direct_ops_after_marker.
+
+(* the variant without that edge (hand-over through a channel that buffers: the direct SeekGC can overtake the
+   marker batch): after the first write the chain is complete, carries no marker, and its contract storage is gone *)
+Theorem C02_reset_direct_ops_after_marker_refuted : ~ reset_order_statement 4.
+Proof. exact reset_order_no_edge_refuted. Qed.
+Print Assumptions C02_reset_direct_ops_after_marker_refuted.
+
+(* the marker-or-intact part needs that one edge only: direct operation after the marker batch (j >= 1) *)
+Theorem C02_reset_marker_or_intact :
+  forall (St Rt : Type) (exec : St -> N -> St) (root : St -> Rt) (genesis : St) (ntx : N -> N) (PS : N)
+         (unroot : Rt -> St) (fx : fixes),
+    (db St Rt -> N -> bool) -> (N -> Rt) ->
+    1 < PS -> (forall j, unroot (root (st_at St exec genesis j)) = st_at St exec genesis j) ->
+    forall (d : db St Rt) (c hh h : N), h <= c ->
+      forall j k : nat, (1 <= j <= 5)%nat -> (k <= 7)%nat ->
+        marker_on (ordered ntx PS unroot fx d c hh h j k) \/
+        db_eq (ordered ntx PS unroot fx d c hh h j k) d \/ k = 7%nat.
+Proof. exact (@reset_marker_or_intact). Qed.
+Print Assumptions C02_reset_marker_or_intact.
+
+Example C02_reset_order_example :
+  map (fun j => map (fun k => is_up (wboot fixes_all (wordered j k))) [1; 2; 3; 4; 5; 6; 7]%nat) [4; 5]%nat
+    = [[true; true; true; true; true; true; true]; [true; true; true; true; true; true; true]] /\
+  has_marker (wordered 0 1) = false /\ has_state (wordered 0 1) = false /\ has_state wd = true.
+Proof.
+  split; [exact (proj1 order_windows_code)|].
+  pose proof order_window_no_edge as (A & B & C & _). repeat split; assumption.
+Qed.
+
 (* ---- the full collector: untraceable blocks and header-hash pages (Node/CrashGC.v) ----
    For every run with collector runs in any position (block records below the target deleted through the write
    cache, header-hash pages by a commit of their own, repaired page bound F48) and every number k of batches
